@@ -371,7 +371,13 @@ class C55(ShmProp):
                     'c55.read_closed_free_idle', 'c55.write_aborted', 'c55.quiescent_checks', 'fault.shm.kid_crash']
     # share of cases that contain openForUpdating/closeForUpdating/abortUpdating. Off by default: on the unchanged tree those cases expose
     # what look like genuine defects of the update code (see the report / VERIF_C55_UPDATES=1 to reproduce); their violation classes
-    # carry the prefix "upd-" so that they can be matched separately.
+    # carry the prefix "upd-" so that they can be matched separately. Minimal cases (mode shm:run storemap):
+    #   A  keys=0 slots=5 pol=C seed=10 | W0 a a a c | R0 n | G0 F0
+    #      sequential: reader holds the 3-slice entry, closeForUpdating() splices the stale suffix into the fresh entry, freeEntryByKey() frees
+    #      the fresh entry and with it the suffix slices the stale reader still holds a read lock on
+    #   B  keys=0 slots=6 pol=P3 seed=25 | W0 a a a c G0 G0 | G0 G0 G0 G0 G0 G0 G0 G0 G0 G0
+    #      openForUpdating() read-opens, stalls, later gets the headers lock of an anchor that another updater superseded meanwhile
+    #      (waitingToBeFreed is not re-checked) and updates the stale version
     with_updates = float(os.environ.get('VERIF_C55_UPDATES', '0') or 0) and 0.33
     expected_probes = _base_probes + (['c55.update_committed', 'c55.update_aborted'] if with_updates else [])
 
